@@ -22,7 +22,7 @@ import (
 
 func init() { core.Register("migrate", migrateSuite) }
 
-var migKinds = []string{"migrate", "migrate", "samegca", "badinner", "foreign-order", "selfsigned", "badmig", "success", "success", "badsrvsig", "reset", "stale"}
+var migKinds = []string{"migrate", "migrate", "samegca", "badinner", "badinner-known", "foreign-order", "selfsigned", "badmig", "success", "success", "badsrvsig", "badsrvsig-known", "reset", "stale"}
 
 func runMigrateHistory(h *histRun, kind string) error {
 	rng := h.rng
@@ -68,6 +68,9 @@ func runMigrateHistory(h *histRun, kind string) error {
 		h.count("hist.newclient-crosscheck")
 	}
 	rounds := rng.Range(5, 7)
+	if kind == "rejects" {
+		rounds = 8
+	}
 	for r := 0; r < rounds && !h.dead; r++ {
 		known := stateMap(client.VerifState(h.c))
 		plan := map[glow.PublicKey]beh{}
@@ -83,8 +86,8 @@ func runMigrateHistory(h *histRun, kind string) error {
 				bk, label = "migrate0", "migrate0"
 			case kind == "chain" && (r == 0 || r == 2):
 				bk, label = "migrate", "migrate"
-			case kind == "rejects" && r < 5:
-				bk = []string{"badinner", "foreign-order", "badmig", "badsrvsig", "selfsigned"}[r]
+			case kind == "rejects" && r < 7:
+				bk = []string{"badinner", "badinner-known", "badsrvsig-known", "foreign-order", "badmig", "badsrvsig", "selfsigned"}[r]
 				label = bk
 			case kind == "samegca" && r == 0:
 				bk, label = "samegca", "samegca"
@@ -187,7 +190,7 @@ func migrateSuite(seed uint64, tier, outDir string) (*core.Result, error) {
 		}
 	}
 	res.Required = append(res.Required, "round.migrate", "round.migrate0", "round.migrated", "round.migrated-to-empty-list", "round.samegca", "round.ban-then-move",
-		"attempt.badinner", "attempt.foreign-order", "attempt.selfsigned", "attempt.badmig", "attempt.badsrvsig", "attempt.migrate", "attempt.migrate0", "attempt.samegca",
+		"attempt.badinner", "attempt.badinner-known", "attempt.badsrvsig-known", "attempt.foreign-order", "attempt.selfsigned", "attempt.badmig", "attempt.badsrvsig", "attempt.migrate", "attempt.migrate0", "attempt.samegca",
 		"attempt.ban-then-move", "hist.load", "hist.load.refused", "hist.newclient-crosscheck")
 	res.Rule = "client histories over scripted servers: list updates (new, ban, un-ban attempt, changed ports), migration orders (valid with 1..4 servers and duplicate keys, none, foreign device, bad outer signature, inner entry signed by the old GCA, order naming the current GCA), chains of two migrations, restarts after every adoption (hook loader and real NewClient); non-trivial = at least one accepted reply"
 	return res, nil
